@@ -1,6 +1,10 @@
 ------------------------------ MODULE MC_Extreme ------------------------------
 (* every (schema atom, value class) pair is one initial state; no transitions *)
 EXTENDS Extreme, Json
+
+(* TLC orders record fields by the order in which their names were first seen: the tag
+   field k of JSON values must be met before v (heterogeneous values are told apart by k) *)
+LOCAL InternOrderKV == [k |-> 0, v |-> 0]
 VARIABLE c
 NumNames == {n.name : n \in NumClasses}
 Cases ==
